@@ -252,7 +252,7 @@ R06F_SITES = {
 def _end_kind(txt):
     """which end of a partition's range does the expression denote (decided by the first marker in it)"""
     pos = {}
-    for kind, markers in (("max", ("maxes", "divisions[-1]")), ("min", ("mins", "divisions[0]"))):
+    for kind, markers in (("max", ("maxes", "divisions[-1]", "_max", "['max']")), ("min", ("mins", "divisions[0]", "_min", "['min']"))):
         idx = [txt.find(m) for m in markers if m in txt]
         if idx:
             pos[kind] = min(idx)
